@@ -199,6 +199,9 @@ func (x *Exec) runProperty(prop, mapFile, tier, evDir, dump, known, replayDir st
 		if fi != nil {
 			if f, ok := fi["first"].(map[string]interface{}); ok {
 				fmt.Printf("   failing input (differential search against the verified tree): %v\n", f["scenario"])
+				if fl, ok := f["first_differing_line"].(map[string]interface{}); ok {
+					fmt.Printf("      verified tree: %v\n      current tree:  %v\n", fl["verified_tree"], fl["current_tree"])
+				}
 			}
 			fmt.Printf("VIOLATION property=%s replay=%s\n", prop, rp)
 		} else {
